@@ -35,6 +35,7 @@ import (
 	"verif/gen"
 	"verif/model"
 	"verif/scen"
+	"verif/scen/bindhist"
 	"verif/sim"
 )
 
@@ -59,7 +60,7 @@ func (S) Info() scen.Info {
 			"goroutine scheduling": "stub: seeded one-at-a-time scheduler; yields between operations, between reader chunks, inside visitor and transform callbacks",
 		},
 		QuickUnits: 50000, ThoroughUnits: 3000000, QuickSecs: 240, ThoroughSecs: 1200,
-		ProbeKeys: []string{"probe.reset_producer", "probe.assign_then_reset", "probe.copy_and_extend", "probe.largebytes_interleaved", "probe.two_readers_same_node", "probe.subset_match_bytes", "probe.subset_match_string", "probe.focused_transform", "probe.walk_transform", "probe.abandoned_builder", "probe.typed_node_in_pool", "probe.stream_bytes_node", "probe.callback_interleaved", "probe.loaded_node_in_pool", "probe.load_while_holding_loaded_nodes", "probe.iterator_nodes_retained", "probe.lookup_result_retained", "probe.extended_after_assign", "probe.stream_reader_unusual_but_legal", "probe.stream_read_fault_fired"},
+		ProbeKeys: []string{"probe.reset_producer", "probe.assign_then_reset", "probe.copy_and_extend", "probe.largebytes_interleaved", "probe.two_readers_same_node", "probe.subset_match_bytes", "probe.subset_match_string", "probe.focused_transform", "probe.walk_transform", "probe.abandoned_builder", "probe.typed_node_in_pool", "probe.stream_bytes_node", "probe.callback_interleaved", "probe.loaded_node_in_pool", "probe.load_while_holding_loaded_nodes", "probe.iterator_nodes_retained", "probe.lookup_result_retained", "probe.extended_after_assign", "probe.stream_reader_unusual_but_legal", "probe.stream_read_fault_fired", "probe.assign_into_specific_generic_builder", "probe.vocabulary_node_in_pool"},
 		EventsKey: "events",
 	}
 }
@@ -272,7 +273,7 @@ func (S) RunTape(t *sim.Tape, st *sim.Stats, keepLog bool) *sim.Outcome {
 	// ---- initial pool ----
 	n0 := 3 + t.Choice(6, "npool")
 	for i := 0; i < n0; i++ {
-		w.spawn(t.Choice(10, "src"))
+		w.spawn(t.Choice(11, "src"))
 	}
 	for len(w.pool) < 2 {
 		w.spawn(0)
@@ -449,6 +450,21 @@ func (w *world) spawn(k int) {
 		}
 		w.add(n, model.BytesV(b), origin, nil)
 		w.st.Inc("probe.stream_bytes_node")
+	case 10: // a reflection-bound node of one of C19's vocabulary shapes, type-level view or representation view
+		var name string
+		var tn schema.TypedNode
+		if pan := safe(func() {
+			name, tn = bindhist.Sample(t.Choice(bindhist.VocabSize(), "vocab.type"), t.Choice(32, "vocab.val"))
+		}); pan != "" {
+			return
+		}
+		if t.Bool("vocab.repr") {
+			w.add(tn.Representation(), nil, "bindnode-vocab-"+name+"-representation", nil)
+		} else {
+			w.add(tn, nil, "bindnode-vocab-"+name, nil)
+		}
+		w.st.Inc("probe.typed_node_in_pool")
+		w.st.Inc("probe.vocabulary_node_in_pool")
 	case 9: // bindnode typed map, with a repeated key if the builder lets it through
 		np := bindnode.Prototype((*TMap)(nil), ts.TypeByName("TMap"))
 		nb := np.NewBuilder()
@@ -604,6 +620,13 @@ func (w *world) step(h int, rd *reader, op, a, b, c int) string {
 		j := b % len(w.pool)
 		f := w.pool[j]
 		nb := basicnode.Prototype.Any.NewBuilder()
+		if c&8 != 0 {
+			if op == 4 {
+				nb = basicnode.Prototype.Map.NewBuilder()
+			} else {
+				nb = basicnode.Prototype.List.NewBuilder()
+			}
+		}
 		var err error
 		snap := &model.V{}
 		pan := safe(func() {
@@ -660,12 +683,28 @@ func (w *world) step(h int, rd *reader, op, a, b, c int) string {
 		extendVariant := c%2 == 0 && (e.snap.K == model.Map || e.snap.K == model.List) && len(e.snap.Vals) > 0
 		pan := safe(func() {
 			nb = e.n.Prototype().NewBuilder()
+			// half of the time the receiving builder is the generic map / list builder, whatever
+			// implementation the node comes from (its own shortcut for generic nodes, the copying path for others)
+			if c&4 != 0 && e.snap.K == model.Map {
+				nb = basicnode.Prototype.Map.NewBuilder()
+				w.st.Inc("probe.assign_into_specific_generic_builder")
+			} else if c&4 != 0 && e.snap.K == model.List {
+				nb = basicnode.Prototype.List.NewBuilder()
+				w.st.Inc("probe.assign_into_specific_generic_builder")
+			}
 			if err := nb.AssignNode(e.n); err != nil {
 				nb = nil
 				return
 			}
 			if !extendVariant {
 				m = nb.Build()
+				// a representation-level prototype's builder returns the type-level node of what was
+				// assembled; the copy of a representation view is that node's representation view
+				if tn, ok := m.(schema.TypedNode); ok {
+					if _, srcTyped := e.n.(schema.TypedNode); !srcTyped {
+						m = tn.Representation()
+					}
+				}
 			}
 		})
 		if pan != "" || nb == nil || (!extendVariant && m == nil) {
@@ -865,6 +904,10 @@ func (w *world) step(h int, rd *reader, op, a, b, c int) string {
 					k, v, err := it.Next()
 					if err != nil {
 						return
+					}
+					if v.IsAbsent() {
+						idx-- // an optional field without a value: iterated, but not part of the data (nor of the snapshot)
+						continue
 					}
 					// the key node (and the value node) of THIS step, kept past the next step
 					if idx < 3 {
